@@ -29,6 +29,112 @@ fn shape_len(shape: usize, first: usize, follow: usize) -> usize {
     }
 }
 
+/// The same send at the platform level: data + 2 channel descriptors + 1 region, exact lists compared.
+fn platform_run(len: usize, out: &mut Outcome) -> Outcome {
+    use ipc_channel::platform::{self, OsIpcChannel, OsIpcSharedMemory};
+    let (tx, rx) = platform::channel().unwrap();
+    let region_bytes: Vec<u8> = (0..5000u32).map(|i| (i * 7 + 3) as u8).collect();
+    let data = make_payload(13, 0, 0, len);
+    let sent = data.clone();
+    let rb = region_bytes.clone();
+    sim::spawn("sender", Some(2), move || {
+        let mut chans = vec![];
+        let mut keep = vec![];
+        for _ in 0..2 {
+            let (t, r) = platform::channel().unwrap();
+            chans.push(OsIpcChannel::Sender(t));
+            keep.push(r);
+        }
+        hist::log("send.inv", 0, data.len() as i64, 2, "");
+        let r = tx.send(&data, chans, vec![OsIpcSharedMemory::from_bytes(&rb)]);
+        let fired = sim::g().stats.f_enobufs;
+        sim::clear_faults();
+        match r {
+            Ok(()) => hist::log("send.ok", 0, fired as i64, 0, ""),
+            Err(e) => hist::log("send.err", 0, fired as i64, 0, &e.to_string()),
+        };
+        let r2 = tx.send(&make_payload(13, 0, 1, 64), vec![], vec![]);
+        hist::log(if r2.is_ok() { "follow.ok" } else { "follow.err" }, 0, 0, 0, "");
+        drop(tx);
+        drop(keep);
+    });
+    sim::spawn("receiver", None, move || {
+        let mut tries = 0;
+        loop {
+            match rx.recv() {
+                Ok((d, mut ch, rg)) => {
+                    let tag = check_payload(&d).map(|t| t.2 as i64).unwrap_or(-1);
+                    let regs_ok = rg.iter().all(|g| &g[..] == &region_bytes[..]);
+                    hist::log("deliver", tag, d.len() as i64, ((ch.len() as i64) << 8) | rg.len() as i64, if regs_ok { "" } else { "REGION-DIFFERS" });
+                    for c in ch.iter_mut() {
+                        drop(c.to_sender());
+                    }
+                    if tag == 1 {
+                        break;
+                    }
+                },
+                Err(e) => {
+                    hist::log("recv.end", 0, 0, 0, &e.to_string());
+                    tries += 1;
+                    if tries > 3 {
+                        break;
+                    }
+                },
+            }
+        }
+        hist::log("receiver.done", 0, 0, 0, "");
+    });
+    let blocked = sim::settle();
+    let evs = hist::events();
+    let ok = evs.iter().find(|e| e.op == "send.ok");
+    let err = evs.iter().find(|e| e.op == "send.err");
+    let fired = ok.or(err).map(|e| e.b).unwrap_or(0);
+    let d0: Vec<&hist::Ev> = evs.iter().filter(|e| e.op == "deliver" && e.a == 0).collect();
+    if ok.is_some() {
+        if d0.len() != 1 {
+            out.viol(if d0.is_empty() { "lost:send-ok" } else { "duplicate:recv" }, format!("platform level: send returned Ok after {} refused attempts, message delivered {} times", fired, d0.len()));
+        } else {
+            let e = d0[0];
+            if e.b as usize != sent.len() {
+                out.viol("shortened:recv", format!("platform level: sent {} bytes, received {}", sent.len(), e.b));
+            }
+            if e.c != (2 << 8) | 1 {
+                out.viol("descriptor-list-altered:recv", format!("platform level: sent 2 channels + 1 region, received {} channels + {} regions ({} refusals fired)", e.c >> 8, e.c & 0xff, fired));
+            }
+            if e.s == "REGION-DIFFERS" {
+                out.viol("altered:recv", "platform level: region contents differ".into());
+            }
+        }
+    } else if err.is_some() && !d0.is_empty() {
+        out.viol("delivered-after-error:recv", "platform level: send reported an error but the message was delivered".into());
+    }
+    if evs.iter().any(|e| e.op == "follow.err") {
+        out.viol("channel-broken:send", "platform level: the follow-on message could not be sent".into());
+    }
+    if !evs.iter().any(|e| e.op == "deliver" && e.a == 1) && !blocked.iter().any(|b| b.label == "sender") {
+        out.viol("follow-on-lost:recv", "platform level: the follow-on message was not delivered".into());
+    }
+    for b in &blocked {
+        if b.label == "sender" || b.label == "receiver" {
+            out.viol(&format!("hang:{}", if b.label == "sender" { "send" } else { "recv" }), format!("platform level: {} blocked forever in {}", b.label, b.in_call));
+        }
+    }
+    let st = &sim::g().stats;
+    if st.p_trunc > 0 || st.p_ctrunc > 0 {
+        out.viol("oversized-retry:send", format!("a transmitted packet did not fit the buffer the receiver offers (MSG_TRUNC {} / MSG_CTRUNC {})", st.p_trunc, st.p_ctrunc));
+    }
+    for pn in hist::panics() {
+        out.viol(&hist::panic_sig(pn), format!("panic in [{}]: {} at {}", pn.label, pn.msg, pn.loc));
+    }
+    out.nontrivial = fired > 0;
+    out.probe("refusals_fired", fired as u64);
+    out.probe("send_ok", ok.is_some() as u64);
+    out.probe("send_err", err.is_some() as u64);
+    out.probe("platform_level_cases", 1);
+    out.sample = json!({"level": "platform", "len": len, "refusals_fired": fired, "send_ok": ok.is_some()});
+    std::mem::take(out)
+}
+
 impl Scenario for C13S {
     fn id(&self) -> &'static str {
         "C13"
@@ -40,24 +146,27 @@ impl Scenario for C13S {
         true
     }
     fn count(&self, tier: Tier, _variant: &str) -> u64 {
-        // 5 shapes x 2 attachment modes x 2 buffer sizes x 1024 ENOBUFS patterns (x schedules)
-        let base = 5 * 2 * 2 * 1024;
+        // 5 shapes x 3 attachment modes x 2 buffer sizes x 1024 ENOBUFS patterns (x schedules)
+        let base = 5 * 3 * 2 * 1024;
         match tier {
             Tier::Quick => base * 4,
             Tier::Thorough => base * 160,
         }
     }
     fn rule(&self) -> &'static str {
-        "exhaustive enumeration: case i = (ENOBUFS pattern = every subset of the first 10 transmission attempts of one send) x (shape: <=2000 B one packet, >2000 B one packet, 2, 3, 6 packets) x (no attachments | 2 senders + 1 region) x (SO_SNDBUF request 2304 | 8192); quick runs the whole enumeration under 4, thorough under 160 different seeded receiver/sender schedules; non-trivial = at least one refusal actually fired inside the send under test; distinct = distinct (pattern, shape, attachments, buffer, schedule hash)"
+        "exhaustive enumeration: case i = (ENOBUFS pattern = every subset of the first 10 transmission attempts of one send) x (shape: <=2000 B one packet, >2000 B one packet, 2, 3, 6 packets) x (no attachments | 2 senders + 1 region through the typed API | the same through the platform-level API, where the exact descriptor list is compared) x (SO_SNDBUF request 2304 | 8192); quick runs the whole enumeration under 4, thorough under 160 different seeded receiver/sender schedules; non-trivial = at least one refusal actually fired inside the send under test; distinct = distinct (pattern, shape, attachments, buffer, schedule hash)"
     }
     fn gen(&self, seed: u64, idx: u64, _tier: Tier, _variant: &str) -> Value {
-        let base = 5 * 2 * 2 * 1024u64;
+        let base = 5 * 3 * 2 * 1024u64;
         let rep = idx / base;
         let i = idx % base;
         let mask = i % 1024;
         let shape = (i / 1024) % 5;
-        let att = (i / 5120) % 2 == 1;
-        let buf = BUFS[((i / 10240) % 2) as usize];
+        // attachments: 0 = none, 1 = senders + region through the typed API, 2 = the same at the
+        // platform level (OsIpcSender::send), where the exact descriptor list is visible
+        let att_mode = (i / 5120) % 3;
+        let att = att_mode >= 1;
+        let buf = BUFS[((i / 15360) % 2) as usize];
         let mut r = Rng::stream(seed, idx.wrapping_mul(2654435761).wrapping_add(0xC13));
         let mut sim = sim_json(&mut r, seed ^ idx.wrapping_mul(0x9E37));
         sim["sndbuf"] = json!(buf);
@@ -67,7 +176,7 @@ impl Scenario for C13S {
         let faults: Vec<Value> = (0..10).filter(|b| mask >> b & 1 == 1).map(|b| json!({"k": "txerr", "pid": 2, "nth": b, "errno": libc::ENOBUFS})).collect();
         sim["faults"] = json!(faults);
         let (first, follow) = predict_frag(Some(buf), false);
-        json!({"sim": sim, "shape": shape, "len": shape_len(shape as usize, first, follow), "att": att, "mask": mask})
+        json!({"sim": sim, "shape": shape, "len": shape_len(shape as usize, first, follow), "att": att, "platform": att_mode == 2, "mask": mask})
     }
     fn died(&self, how: &str, _p: &str) -> Option<Violation> {
         if how == "step-budget" {
@@ -80,6 +189,9 @@ impl Scenario for C13S {
         start_sim(p);
         let len = p["len"].as_u64().unwrap_or(100).min(1 << 20) as usize;
         let with_att = p["att"].as_bool().unwrap_or(false);
+        if p["platform"].as_bool().unwrap_or(false) {
+            return platform_run(len, &mut out);
+        }
         let (tx, rx) = ipc::channel::<M13>().unwrap();
         let mut sides: Vec<IpcReceiver<u32>> = vec![];
         let mut att = vec![];
